@@ -362,17 +362,19 @@ def revival_case(args):
 def pulse_case(args):
     cp, start, k, eps = args[:4]
     late = bool(args[4]) if len(args) > 4 else False
+    sampled = bool(args[5]) if len(args) > 5 else False       # subdiv_limit=None in both routes (sampled propagators)
+    skw = {"subdiv_limit": None} if sampled else {}
     o = coupling(cp)
     d = o.shape[0]
     n = N_STEPS
     bath = oq.Bath(o, C.lib_correlations(SDS["ohmic-exp-T0.5"]))
     rho0 = initial_state(d)
     sysm = pulse_system(d, start, late)
-    prm = C.make_params(DT, eps, dkmax=k)
+    prm = C.make_params(DT, eps, dkmax=k, **skw)
     try:
         _, ts = C.run_tempo(sysm, bath, prm, rho0, start, n, False)
         pt = C.run_pt(bath, prm, start, n, False)
-        _, ps = C.run_pt_dynamics(sysm, pt, rho0, start)
+        _, ps = C.run_pt_dynamics(sysm, pt, rho0, start, **skw)
         smooth = oq.TimeDependentSystem(lambda t: M.generic_herm(d, 1, 0.8))
         _, ss = C.run_tempo(smooth, bath, prm, rho0, start, n, False)
     except Exception as ex:  # noqa
@@ -380,7 +382,7 @@ def pulse_case(args):
     dev = float(np.abs(ts - ps).max())
     bad = []
     if dev > tolerance(eps, n):
-        bad.append((f"pulse|{cp}|{'constant-during-the-first-two-steps|' if late else ''}tempo-vs-pttempo-differ",
+        bad.append((f"pulse|{cp}|{'sampled-propagators|' if sampled else ''}{'constant-during-the-first-two-steps|' if late else ''}tempo-vs-pttempo-differ",
                     f"H(t), gamma(t) with steps off the half-step grid, start={start} dkmax={k} epsrel={eps} late={late}: "
                     f"differ by {dev:.2e}"))
     return {"bad": bad, "eff": float(np.abs(ts - ss).max()), "dev": dev}
@@ -393,8 +395,9 @@ def run(tier, seed):
     for j, r in zip(lj, lres):
         for cls, what in r["bad"]:
             rep.add(Violation(cls, what, {"family": "lattice", "args": list(j)}))
-    pj = [(cp, st, k, e, late) for cp in ("sz", "sx", "d3block") for st in (0.0, -0.3, 1.7) for k in (None, 2) for e in EPSRELS
+    pj = [(cp, st, k, e, late, False) for cp in ("sz", "sx", "d3block") for st in (0.0, -0.3, 1.7) for k in (None, 2) for e in EPSRELS
           for late in (False, True)]
+    pj += [(cp, st, 2, EPSRELS[-1], late, True) for cp in ("sz", "sx") for st in (0.0, 1.7) for late in (False, True)]
     pres = pmap(pulse_case, pj, seed=seed)
     for j, r in zip(pj, pres):
         for cls, what in r["bad"]:
@@ -412,7 +415,7 @@ def run(tier, seed):
                                     "cases": len(lj), "min_memory_cutoff_effect": min(r["eff"] for r in lres),
                                     "max_dev": max(r.get("dev", 0.0) for r in lres if not r["bad"]) if any(not r["bad"] for r in lres) else None},
                  "pulse_family": {"cases": len(pj), "min_pulse_effect": min(r["eff"] for r in pres),
-                                  "max_dev_over_tol": max((r.get("dev", 0.0) / tolerance(j[3], N_STEPS)) for j, r in zip(pj, pres))}}
+                                  "max_dev_over_tol": max((r.get("dev", 0.0) / tolerance(j[3], N_STEPS)) for j, r in zip(pj, pres)), "sampled_cases": 8}}
     shs = shards(tier)
     res = pmap(shard_worker, shs, chunksize=1, seed=seed)
     keys = set()
